@@ -53,7 +53,7 @@ RUNTIME_TRUST = ["sync.Mutex / sync.WaitGroup / context cancellation / go statem
 PROPS = {
     "C01": {
         "inventory_closure": True,
-        "lean": ["GldapModel.Props.C01", "GldapModel.Props.Filter", "GldapModel.Props.Session"],
+        "lean": ["GldapModel.Props.C01", "GldapModel.Props.Filter", "GldapModel.Props.FilterSession", "GldapModel.Props.Session"],
         "audit": ["GldapModel/Audit/C01.lean", "GldapModel/Audit/Filter.lean", "GldapModel/Audit/Session.lean"],
         "inventory": DECODE_FUNCS + ["conn.serveRequests", "conn.readRequest", "conn.readPacket"],
         "streams": [
@@ -66,8 +66,8 @@ PROPS = {
         "assumptions": ["filters: the theorem gives the RFC 4515 string of the client's filter tree (C01_filter_roundtrip); that go-ldap's CompileFilter maps that string back to the same bytes is checked per generated filter by the harness, not proved"],
     },
     "C03": {
-        "lean": ["GldapModel.Props.C03", "GldapModel.Props.Session"],
-        "audit": ["GldapModel/Audit/C03.lean", "GldapModel/Audit/Session.lean"],
+        "lean": ["GldapModel.Props.C03", "GldapModel.Props.Session", "GldapModel.Props.FilterSession"],
+        "audit": ["GldapModel/Audit/C03.lean", "GldapModel/Audit/Session.lean", "GldapModel/Audit/Filter.lean"],
         "inventory": ["Mux.serve", "responseApplicationCode", "Mux.Bind", "Mux.Unbind", "Mux.Search", "Mux.ExtendedOperation",
                       "Mux.Modify", "Mux.Add", "Mux.Delete", "Mux.DefaultRoute", "NewMux", "baseRoute.handler", "baseRoute.op",
                       "baseRoute.match", "deleteRoute.match", "addRoute.match", "modifyRoute.match", "simpleBindRoute.match",
@@ -126,8 +126,8 @@ PROPS = {
         "assumptions": ["plain / TLS / StartTLS transports deliver the same bind request to the handler (C13, C18); this check drives the handler in-process through the directory's own mux"],
     },
     "C20": {
-        "lean": ["GldapModel.Props.C20", "GldapModel.Props.StoreSession"],
-        "audit": ["GldapModel/Audit/C20.lean", "GldapModel/Audit/StoreSession.lean"],
+        "lean": ["GldapModel.Props.C20", "GldapModel.Props.StoreSession", "GldapModel.Props.FilterSession"],
+        "audit": ["GldapModel/Audit/C20.lean", "GldapModel/Audit/StoreSession.lean", "GldapModel/Audit/Filter.lean"],
         "inventory": ["td.Directory.handleAdd", "td.Directory.handleModify", "td.Directory.handleDelete", "td.Directory.handleSearchUsers",
                       "td.Directory.handleSearchGroups", "td.Directory.handleSearchGeneric", "td.Directory.findMembers", "td.find", "td.match",
                       "td.Directory.SetUsers", "td.Directory.SetGroups", "NewEntry", "NewEntryAttribute", "EntryAttribute.AddValue", "Entry.GetAttributeValues",
